@@ -114,7 +114,7 @@ PROPS["C05"] = {
 
 SLOT_RULE = ("comment-slot enumeration: 46 constructs (every statement kind, expression kinds, Luau/5.2/5.4 forms) x every token gap x {block, multi-line block, line comment + newline} x 6 configurations = 9 954 cases, all oracles; closed and seed-independent. ")
 
-PROGEN_RULE = ("ring 3 (seeded): `hx progen` - 2 500 (thorough 20 000) random programs from a grammar of the whole language (every statement kind, nested blocks, tables, functions, call sugar, strings, numbers; comments and blank lines only between statements) x 2 random configurations each, judged by the re-parse, normal-form, comment-census and panic oracles. ")
+PROGEN_RULE = ("ring 3 (seeded): `hx progen` - 2 500 (thorough 10 000) random programs from a grammar of the whole language (every statement kind, nested blocks, tables, functions, call sugar, strings, numbers; comments and blank lines only between statements) x 2 random configurations each, judged by the re-parse, normal-form, comment-census and panic oracles. ")
 
 PIPE_RULE = ("ring 3 (closed set): the repository's 367 test inputs (+ committed catalogue) x a fixed grid of 79 configurations "
              "(column widths 1..usize::MAX, both indent types, widths 1-16, both line endings, every value of every enum option), "
